@@ -19,8 +19,12 @@ Rng(n) == 0..(n - 1)
 Sweep(bases, fields) == UNION {UNION {Vary(b, fld[1], fld[2]) : fld \in fields} : b \in bases}
 
 EthVals == Sweep({Z(12) \o <<0>>, M(12) \o <<65535>>}, {<<i, B8>> : i \in 1..12} \cup {<<13, B16 \cup {2048, 34525, 33024}>>})
-SllVals == Sweep({<<0, 1, 0>> \o Z(8) \o <<2048>>, <<7, 1, 65535>> \o M(8) \o <<65535>>, <<4, 824, 6>> \o M(8) \o <<17>>, <<3, 778, 8>> \o Z(8) \o <<0>>},
-                 {<<1, Rng(8)>>, <<3, B16>>, <<12, {0, 2048, 34525, 65535, 250, 251}>>} \cup {<<i, {0, 255}>> : i \in 4..11})
+\* (the protocol type is swept over every value around the table of non standard ether types, for every hardware type; the 13th element is
+\*  the meaning of the protocol type, derived from the hardware type)
+SllVals == {v \o <<SllProtoKind(v[2], v[12])>> :
+            v \in Sweep({<<0, 1, 0>> \o Z(8) \o <<2048>>, <<7, 1, 65535>> \o M(8) \o <<65535>>, <<4, 824, 6>> \o M(8) \o <<17>>, <<3, 778, 8>> \o Z(8) \o <<0>>,
+                          <<1, 770, 2>> \o Z(8) \o <<3>>, <<2, 803, 4>> \o M(8) \o <<12>>},
+                         {<<1, Rng(8)>>, <<3, B16>>, <<12, {0, 2048, 34525, 65535} \cup (0..30) \cup (243..252)>>} \cup {<<i, {0, 255}>> : i \in 4..11})}
 VlanVals == Sweep({<<0, 0, 0, 0>>, <<7, 1, 4095, 65535>>}, {<<1, Rng(8)>>, <<2, {0, 1}>>, <<3, Rng(4096)>>, <<4, B16>>})
 MacsecBases == {<<0, 2048, 0, 0, 0, 0>> \o Z(4) \o <<0>>, <<0, 65535, 1, 1, 3, 63>> \o M(4) \o <<1>> \o M(8),
                 <<1, -1, 0, 0, 0, 0>> \o Z(4) \o <<0>>, <<2, -1, 1, 1, 3, 63>> \o M(4) \o <<1>> \o M(8), <<3, -1, 1, 0, 2, 17>> \o M(4) \o <<0>>}
